@@ -72,7 +72,7 @@ def replay_concrete(spec, args, kwargs=None, timeout=120):
     """Run the harness on concrete arguments in a fresh plain interpreter (no
     CrossHair import).  Returns dict(reproduced, detail, exception)."""
     payload = json.dumps(dict(spec=spec, args=args, kwargs=kwargs or {}))
-    env = dict(os.environ, PYTHONPATH='%s:/repo' % ROOT, PYTHONDONTWRITEBYTECODE='1')
+    env = dict(os.environ, PYTHONPATH='%s:%s' % (ROOT, os.environ.get('VP_REPO', '/repo')), PYTHONDONTWRITEBYTECODE='1')
     try:
         p = subprocess.run([PY, '-m', 'vp.replay', '--json'], input=payload, capture_output=True,
                            text=True, timeout=timeout, cwd=ROOT, env=env)
